@@ -167,6 +167,8 @@ func (r *AvPacket2RtmpRemuxer) FeedAvPacket(pkt base.AvPacket) {
 		pos := 5
 		maxLength := len(pkt.Payload) + pos + len(nals)
 		payload := make([]byte, maxLength)
+		// 只要有一个nal是关键帧，整个message就标记为关键帧（IDR后面可能还跟着SEI等nal）
+		isKeyFrame := false
 
 		for _, nal := range nals {
 			if pkt.PayloadType == base.AvPacketPtAvc {
@@ -211,6 +213,9 @@ func (r *AvPacket2RtmpRemuxer) FeedAvPacket(pkt base.AvPacket) {
 						//		payload = make([]byte, maxLength)
 						//	}
 						//}
+						isKeyFrame = true
+					}
+					if isKeyFrame {
 						payload[0] = base.RtmpAvcKeyFrame
 					} else {
 						payload[0] = base.RtmpAvcInterFrame
@@ -260,6 +265,9 @@ func (r *AvPacket2RtmpRemuxer) FeedAvPacket(pkt base.AvPacket) {
 						//		payload = make([]byte, maxLength)
 						//	}
 						//}
+						isKeyFrame = true
+					}
+					if isKeyFrame {
 						payload[0] = base.RtmpHevcKeyFrame
 					} else {
 						payload[0] = base.RtmpHevcInterFrame
